@@ -106,6 +106,9 @@ def observe(m, ok, snapshots):
             {"rows": [(t, v) for t, v, _ in rows], "consistent": cons, "pure": pure})
 
 
+UNEXPECTED = []
+
+
 def run_history(rng, maxlen):
     import polars as pl
     from acryo import Molecules
@@ -154,7 +157,15 @@ def run_history(rng, maxlen):
                 elif how == 1:
                     new = Molecules.concat([cur, other])
                 else:
-                    new = cur.copy().append(other) if (len(cur) or m) else cur.concat_with(other)
+                    if len(cur) or m:
+                        # in-place append on an object whose derived tables have already been used (any memo must be refreshed)
+                        c2 = cur.copy()
+                        _ = c2.to_dataframe(); _ = c2.head(1); _ = [g for g in c2.group_by("v")] if len(c2) else None
+                        new = c2.append(other)
+                        if new is not c2:
+                            raise AssertionError("append did not return the same instance")
+                    else:
+                        new = cur.concat_with(other)
             elif k == 9 and n:
                 desc = bool(rng.integers(0, 2)); term = f"OSort {bl(desc)}"; p = ["sort", desc]; new = cur.sort("v", descending=desc)
             elif k == 10 and n:
@@ -165,6 +176,9 @@ def run_history(rng, maxlen):
                 new = cur.with_features((pl.col("tag") * 2).alias("extra")).drop_features("extra")
         except (IndexError, ValueError) as e:
             ok = False
+        except Exception as e:  # noqa  -- a valid operation on a valid table must not fail in any other way
+            UNEXPECTED.append({"op": p if "p" in dir() else None, "error": f"{type(e).__name__}: {str(e)[:200]}", "history": [h[:2] for h in py]})
+            break
         if ok and new is not None and len(new.features.columns) == 0 and len(new) == 0:
             # empty table lost its schema: stop this history here (still recorded)
             o, pyo = observe(new, True, snapshots)
@@ -180,7 +194,11 @@ def run_history(rng, maxlen):
 def corr_histories(ck, rng):
     n = 120 if ck.tier == "quick" else 2000
     maxlen = 7 if ck.tier == "quick" else 25
+    UNEXPECTED.clear()
     cases = [run_history(rng, maxlen) for _ in range(n)]
+    for u in UNEXPECTED[:5]:
+        ck.violation(what=f"table operation {u['op']} raised {u['error']} after history {u['history']}", inp=u,
+                     key={"site": "history", "symptom": "raised", "op": (u["op"] or ["?"])[0]}, oracle="history_unexpected_exception")
     ops = {}
     for _, c in cases:
         for h in c["history"]:
